@@ -29,8 +29,11 @@ SLEq(s, t)    == s = t                                                 \* coeffi
 SLIsConst(s)  == \A k \in SLAtoms : k # "one" => s[k] = Zero           \* no transcendental part
 SLRatPart(s)  == s["one"]
 
-RECURSIVE SLSum(_)
-SLSum(seq) == IF seq = <<>> THEN SLZero ELSE SLAdd(Head(seq), SLSum(Tail(seq)))
+\* sum of a sequence of values; balanced recursion (depth log n: long sums must not exhaust the Java stack)
+RECURSIVE SLSumR(_, _, _)
+SLSumR(s, lo, hi) == IF lo > hi THEN SLZero ELSE IF lo = hi THEN s[lo]
+                     ELSE LET mid == (lo + hi) \div 2 IN SLAdd(SLSumR(s, lo, mid), SLSumR(s, mid + 1, hi))
+SLSum(seq) == LET s == TLCEval(seq) IN SLSumR(s, 1, Len(s))
 
 \* ---- logarithms of smooth integers / rationals -------------------------------
 RECURSIVE Mult(_, _)
